@@ -271,7 +271,8 @@ def mk_zero_price(which):
         from specs.handlers import run_handler, KERNELS, short
         from specs.flows import SUMMARIES, evs, MACC_FLAGS, F_RECV, F_DELEV
         kernels = [k for k in KERNELS if k != r'BankAccountWrapper']
-        eng, f, args, res = run_handler(world, WITHDRAWS[which], kernels=kernels, summaries=SUMMARIES, extra_opaque=[r'cpi::', r'Cpi', r'accessor::amount$', r'get_withdraw_token_amount$', r'get_scaled_balance_(de|in)crement$', r'MinimalSpotMarket', r'MinimalUser'])
+        from specs.flows import INTEGRATION_OPAQUE
+        eng, f, args, res = run_handler(world, WITHDRAWS[which], kernels=kernels, summaries=SUMMARIES, extra_opaque=list(INTEGRATION_OPAQUE), max_paths=20000)
         ob = Ob(f'C09.f.{which}', f'{which} withdraw from an account in receivership: the collateral price is fetched (low bias) before the position changes, a zero or negative price is rejected, and the deleverage equity accounting uses that price',
                 [f.name], 'handler mode; kernels opaque; every accepting path'); ob.paths = len(res)
         n_ok = 0
@@ -521,7 +522,7 @@ def t_valuation_liab(world):
 
 
 def tasks(tier):
-    return [('valuation_asset', t_valuation_asset), ('valuation_liab', t_valuation_liab), ('switchboard', t_switchboard), ('scale', t_scale), ('pyth', t_pyth), ('swb_load', t_swb_load), ('adapter', t_adapter), ('adjust', t_adjust), ('pyth_account', t_pyth_account), ('pyth_age', t_pyth_age), ('max_age', t_max_age)] + [(f'zero_price_{w}', mk_zero_price(w)) for w in WITHDRAWS if w != 'drift']
+    return [('valuation_asset', t_valuation_asset), ('valuation_liab', t_valuation_liab), ('switchboard', t_switchboard), ('scale', t_scale), ('pyth', t_pyth), ('swb_load', t_swb_load), ('adapter', t_adapter), ('adjust', t_adjust), ('pyth_account', t_pyth_account), ('pyth_age', t_pyth_age), ('max_age', t_max_age)] + [(f'zero_price_{w}', mk_zero_price(w)) for w in WITHDRAWS]
 
 
 def kani(tier):
